@@ -89,8 +89,27 @@ pub fn plan(property: &str, tier: &str) -> Option<CheckSpec> {
             for s in warm(&["S1", "S2", "S3", "S3b", "S4", "S5", "S7", "S8"]) {
                 b.add("SCHED", scenario(&s, 2).unwrap(), false, Some(bound), &rules, true);
             }
-            rule_text = "named multi-threaded scenarios x all schedules up to the preemption bound; an execution is non-trivial when a collector drain step falls between the first and the last queue command of the program".to_string();
-            bound_text = format!("preemptions <= {bound}; 2 collector cycles + final flush");
+            let mut g = GenCfg::base("C01-seq");
+            g.traces = vec![TraceOpt { trace: 0x1A, sampled: true, remote_parent: 0 }, TraceOpt { trace: 0x1B, sampled: true, remote_parent: 9 }];
+            g.max_spans = 3;
+            g.max_parents = 2;
+            g.allow_scope = true;
+            g.allow_child_local = true;
+            g.finish_while_scoped = true;
+            g.max_depth = 2;
+            g.max_locals = if quick { 1 } else { 3 };
+            g.max_len = if quick { 5 } else { 6 };
+            let n1 = b.add_gen(&g, if quick { 1 } else { 2 }, &[false], &rules, 3_000_000);
+            let mut g2 = g.clone();
+            g2.name = "C01-2actors".into();
+            g2.actors = 2;
+            g2.max_switches = 2;
+            g2.max_spans = 2;
+            g2.max_locals = 1;
+            g2.max_len = if quick { 4 } else { 5 };
+            let n2 = b.add_gen(&g2, 1, &[false], &rules, 3_000_000);
+            rule_text = format!("named multi-threaded scenarios x all schedules up to the preemption bound, plus {n1} generated single-actor and {n2} two-actor lock-step programs x all placements of atomic collector cycles; an execution is non-trivial when a collector drain step falls between the first and the last queue command of the program");
+            bound_text = format!("scenarios: preemptions <= {bound}, 2 collector cycles + final flush; generated: <= 3 spans, <= {} local spans, <= {} operations, <= {} cycles", g.max_locals, g.max_len, if quick { 1 } else { 2 });
             assumptions.push("wall-clock half of the statement (the background thread loops every interval) is abstracted to 'a cycle happens'".into());
         }
         "C03" => {
@@ -99,8 +118,27 @@ pub fn plan(property: &str, tier: &str) -> Option<CheckSpec> {
             for s in warm(&["S2", "S3", "S3b", "S4", "S5", "S5b", "S8", "S20"]) {
                 b.add("SCHED", scenario(&s, 2).unwrap(), true, Some(bound), &rules, true);
             }
-            rule_text = "named multi-threaded scenarios (cancelable) x all schedules up to the preemption bound".to_string();
-            bound_text = format!("preemptions <= {bound}; 2 collector cycles + final flush");
+            let mut g = GenCfg::base("C03-seq");
+            g.traces = vec![TraceOpt { trace: 0x3A, sampled: true, remote_parent: 0 }, TraceOpt { trace: 0x3B, sampled: true, remote_parent: 9 }];
+            g.max_spans = 3;
+            g.max_parents = 2;
+            g.allow_scope = true;
+            g.allow_child_local = true;
+            g.finish_while_scoped = true;
+            g.max_depth = 2;
+            g.max_locals = if quick { 1 } else { 2 };
+            g.max_len = if quick { 5 } else { 6 };
+            let n1 = b.add_gen(&g, if quick { 1 } else { 2 }, &[true], &rules, 3_000_000);
+            let mut g2 = g.clone();
+            g2.name = "C03-2actors".into();
+            g2.actors = 2;
+            g2.max_switches = 2;
+            g2.max_spans = 2;
+            g2.max_locals = 1;
+            g2.max_len = if quick { 4 } else { 5 };
+            let n2 = b.add_gen(&g2, 1, &[true], &rules, 3_000_000);
+            rule_text = format!("named multi-threaded scenarios (cancelable) x all schedules up to the preemption bound, plus {n1} + {n2} generated programs x all placements of atomic collector cycles");
+            bound_text = format!("scenarios: preemptions <= {bound}, 2 collector cycles + final flush; generated: <= 3 spans, <= {} operations", g.max_len);
         }
         "C04" => {
             let rules = [Rule::Liveness, Rule::NoPanic, Rule::Cancel, Rule::Hold, Rule::Deliver, Rule::Attach, Rule::NoExtra];
@@ -110,19 +148,60 @@ pub fn plan(property: &str, tier: &str) -> Option<CheckSpec> {
                     b.add("SCHED", scenario(&s, 2).unwrap(), c, Some(bound), &rules, true);
                 }
             }
-            rule_text = "named cancel scenarios x both configurations x all schedules up to the preemption bound".to_string();
-            bound_text = format!("preemptions <= {bound}; 2 collector cycles + final flush");
+            let mut g = GenCfg::base("C04-seq");
+            g.traces = vec![TraceOpt { trace: 0x4A, sampled: true, remote_parent: 0 }, TraceOpt { trace: 0x4B, sampled: true, remote_parent: 9 }];
+            g.max_spans = 3;
+            g.max_parents = 2;
+            g.allow_scope = true;
+            g.allow_cancel = true;
+            g.cancel_non_root = true;
+            g.max_depth = 1;
+            g.max_locals = 1;
+            g.max_attach = 1;
+            g.handle_attach = true;
+            g.local_attach = true;
+            g.max_len = if quick { 5 } else { 6 };
+            let n1 = b.add_gen(&g, if quick { 1 } else { 2 }, &[true, false], &rules, 3_000_000);
+            rule_text = format!("named cancel scenarios x both configurations x all schedules up to the preemption bound, plus {n1} generated programs with cancel() at every position x all placements of atomic collector cycles x both configurations");
+            bound_text = format!("scenarios: preemptions <= {bound}; generated: <= 3 spans, 1 local span, 1 attachment, <= {} operations", g.max_len);
         }
         "C06" => {
-            let rules = [Rule::Liveness, Rule::NoPanic, Rule::Attach, Rule::NoExtra];
+            let rules = [Rule::Liveness, Rule::NoPanic, Rule::Attach, Rule::AttachOrder, Rule::NoExtra];
             let bound = if quick { 2 } else { 3 };
             for s in warm(&["S19", "S19r", "S8", "S4"]) {
                 for c in [true, false] {
                     b.add("SCHED", scenario(&s, 2).unwrap(), c, Some(bound), &rules, true);
                 }
             }
-            rule_text = "attachment scenarios x both configurations x all schedules up to the preemption bound".to_string();
-            bound_text = format!("preemptions <= {bound}; 2 collector cycles + final flush");
+            let mut g = GenCfg::base("C06-seq");
+            g.traces = vec![TraceOpt { trace: 0x6A, sampled: true, remote_parent: 0 }, TraceOpt { trace: 0x6B, sampled: true, remote_parent: 9 }];
+            g.max_spans = if quick { 2 } else { 3 };
+            g.max_parents = 2;
+            g.allow_scope = true;
+            g.max_depth = 2;
+            g.max_locals = 1;
+            g.max_attach = if quick { 2 } else { 3 };
+            g.handle_attach = true;
+            g.local_attach = true;
+            g.creation_props = true;
+            g.max_len = if quick { 5 } else { 7 };
+            let n1 = b.add_gen(&g, if quick { 1 } else { 2 }, &[true, false], &rules, 3_000_000);
+            let mut g2 = g.clone();
+            g2.name = "C06-2actors".into();
+            g2.actors = 2;
+            g2.max_switches = 2;
+            g2.max_spans = 2;
+            g2.max_depth = 1;
+            g2.max_len = if quick { 4 } else { 6 };
+            let n2 = b.add_gen(&g2, 1, &[true, false], &rules, 3_000_000);
+            for (i, prog) in string_programs().into_iter().enumerate() {
+                for c in [true, false] {
+                    let _ = i;
+                    b.add("SEQ", prog.clone().collector(1, true, 0), c, None, &rules, false);
+                }
+            }
+            rule_text = format!("attachment scenarios x both configurations x all schedules up to the preemption bound, plus {n1} + {n2} generated programs (attachments at creation, by handle, through the local parent) x all placements of atomic collector cycles, plus a string alphabet (empty, duplicate key, 2- and 4-byte UTF-8, 1 KiB) through every route");
+            bound_text = format!("scenarios: preemptions <= {bound}; generated: <= {} spans, <= {} attachments, <= {} operations", g.max_spans, g.max_attach, g.max_len);
         }
         "C08" => {
             let rules = [Rule::Liveness, Rule::NoPanic, Rule::State];
@@ -165,6 +244,135 @@ pub fn plan(property: &str, tier: &str) -> Option<CheckSpec> {
             let n2 = b.add_gen(&g2, 1, &[false, true], &rules, 2_000_000);
             rule_text = format!("bounded-exhaustive generated programs ({n1} single-actor + {n2} two-actor lock-step) x every placement of 1 atomic collector cycle at a ring-push boundary x both configurations; non-trivial: a collector cycle falls between the first and last queue command");
             bound_text = format!("<= {} spans, <= {} local spans, scope depth <= 2, <= {} operations; 1 cycle placed anywhere + final flush", g.max_spans, g.max_locals, g.max_len);
+        }
+        "C05" => {
+            let rules = [Rule::Liveness, Rule::NoPanic, Rule::NoExtra, Rule::Deliver, Rule::Hold, Rule::Ctx, Rule::Attach, Rule::Tree];
+            let mut g = GenCfg::base("C05");
+            g.traces = vec![
+                TraceOpt { trace: 0x5A, sampled: true, remote_parent: 0 },
+                TraceOpt { trace: 0x5B, sampled: false, remote_parent: 0x55 },
+            ];
+            g.any_trace_order = true;
+            g.max_spans = 3;
+            g.max_parents = 2;
+            g.ordered_parents = true;
+            g.allow_scope = true;
+            g.allow_child_local = true;
+            g.max_depth = 2;
+            g.max_locals = 1;
+            g.max_attach = 1;
+            g.handle_attach = true;
+            g.local_attach = true;
+            g.observe = true;
+            g.max_len = if quick { 5 } else { 6 };
+            let n1 = b.add_gen(&g, 1, &[false, true], &rules, 3_000_000);
+            let mut g2 = g.clone();
+            g2.name = "C05-lc".into();
+            g2.allow_lc = true;
+            g2.max_sets = 1;
+            g2.max_spans = 2;
+            g2.max_attach = 1;
+            g2.max_len = if quick { 6 } else { 7 };
+            g2.handle_attach = false;
+            g2.max_depth = 1;
+            let n2 = b.add_gen(&g2, 1, &[false], &rules, 3_000_000);
+            let mut g3 = g.clone();
+            g3.name = "C05-2actors".into();
+            g3.actors = 2;
+            g3.max_switches = 1;
+            g3.max_len = if quick { 4 } else { 5 };
+            g3.observe = true;
+            let n3 = b.add_gen(&g3, 1, &[false], &rules, 3_000_000);
+            rule_text = format!("generated programs mixing a sampled and an unsampled root with descendants through every path ({n1} + {n2} with detached sets + {n3} two-actor), context observed after every operation, x every placement of 1 collector cycle x configurations");
+            bound_text = format!("<= 3 spans, 1 local span, 1 attachment, scope depth <= 2, <= {} operations", g.max_len);
+        }
+        "C10" => {
+            let rules = [Rule::Liveness, Rule::NoPanic, Rule::Ctx, Rule::Tree, Rule::Attach, Rule::NoExtra, Rule::Deliver];
+            let mut g = GenCfg::base("C10");
+            g.traces = vec![TraceOpt { trace: 0x10A, sampled: true, remote_parent: 0 }, TraceOpt { trace: 0x10B, sampled: true, remote_parent: 0 }];
+            g.max_spans = 2;
+            g.allow_scope = true;
+            g.allow_lc = true;
+            g.max_sets = 2;
+            g.max_depth = if quick { 3 } else { 4 };
+            g.max_locals = if quick { 2 } else { 3 };
+            g.max_len = if quick { 6 } else { 8 };
+            g.observe = true;
+            g.probe = true;
+            g.allow_inert_local = true;
+            g.allow_child_local = false;
+            let n1 = b.add_gen(&g, 0, &[false], &rules, 3_000_000);
+            let mut g2 = g.clone();
+            g2.name = "C10-2actors".into();
+            g2.actors = 2;
+            g2.max_switches = 2;
+            g2.max_len = if quick { 4 } else { 5 };
+            let n2 = b.add_gen(&g2, 0, &[false], &rules, 3_000_000);
+            rule_text = format!("all well-nested sequences of scope-opening/closing operations ({n1} single-actor, {n2} two-actor) with the local context observed and probed (child span + local event) after every operation");
+            bound_text = format!("scope depth <= {}, <= {} local spans, <= {} operations", g.max_depth, g.max_locals, g.max_len);
+        }
+        "C11" => {
+            let rules = [Rule::Liveness, Rule::NoPanic, Rule::Ctx, Rule::Tree, Rule::NoExtra, Rule::Deliver];
+            let mut g = GenCfg::base("C11");
+            g.traces = vec![
+                TraceOpt { trace: u128::MAX, sampled: true, remote_parent: u64::MAX },
+                TraceOpt { trace: 1u128 << 127, sampled: false, remote_parent: 1 },
+            ];
+            g.any_trace_order = true;
+            g.max_spans = if quick { 3 } else { 4 };
+            g.max_parents = 2;
+            g.ordered_parents = true;
+            g.allow_scope = true;
+            g.allow_child_local = true;
+            g.allow_noop = true;
+            g.max_depth = 2;
+            g.max_locals = 1;
+            g.observe = true;
+            g.remote_children = true;
+            g.max_len = if quick { 5 } else { 6 };
+            let n1 = b.add_gen(&g, 0, &[false], &rules, 3_000_000);
+            rule_text = format!("{n1} generated programs; from_span / current_local_parent observed after every operation; remote child roots created from extracted contexts directly and through the traceparent codec");
+            bound_text = format!("<= {} spans, scope depth <= 2, 1 local span, <= {} operations", g.max_spans, g.max_len);
+        }
+        "C17" => {
+            let rules = [Rule::Liveness, Rule::NoPanic, Rule::Sets, Rule::Tree, Rule::NoExtra, Rule::Deliver, Rule::Attach, Rule::Times];
+            let mut g = GenCfg::base("C17");
+            g.traces = vec![TraceOpt { trace: 0x17A, sampled: true, remote_parent: 0 }, TraceOpt { trace: 0x17B, sampled: true, remote_parent: 7 }];
+            g.max_spans = 3;
+            g.allow_lc = true;
+            g.max_sets = 1;
+            g.max_depth = 1;
+            g.max_locals = if quick { 2 } else { 3 };
+            g.max_attach = if quick { 1 } else { 2 };
+            g.local_attach = true;
+            g.creation_props = true;
+            g.to_records = true;
+            g.allow_inert_local = false;
+            g.max_len = if quick { 6 } else { 8 };
+            let n1 = b.add_gen(&g, 1, &[false, true], &rules, 3_000_000);
+            rule_text = format!("{n1} generated programs: captured local-span forests (open or closed spans, attachments) pushed to up to 3 parents in 2 traces and converted with to_span_records, x 1 collector cycle anywhere x both configurations");
+            bound_text = format!("<= {} captured local spans, <= {} attachments, <= 3 parents, <= {} operations", g.max_locals, g.max_attach, g.max_len);
+        }
+        "C18" => {
+            let rules = [Rule::Liveness, Rule::NoPanic, Rule::Times, Rule::Elapsed, Rule::Deliver, Rule::NoExtra];
+            let mut g = GenCfg::base("C18");
+            g.traces = vec![TraceOpt { trace: 0x18A, sampled: true, remote_parent: 0 }];
+            g.max_spans = 2;
+            g.allow_scope = true;
+            g.allow_lc = true;
+            g.max_sets = 1;
+            g.max_depth = 2;
+            g.max_locals = 3;
+            g.max_attach = 1;
+            g.local_attach = true;
+            g.handle_attach = true;
+            g.elapsed = true;
+            g.busy_wait_us = 150;
+            g.max_len = if quick { 5 } else { 7 };
+            let n1 = b.add_gen(&g, if quick { 1 } else { 2 }, &[false], &rules, 3_000_000);
+            rule_text = format!("{n1} generated programs with a 150us busy-wait before every operation and harness-side clock brackets around every operation, x collector cycles anywhere");
+            bound_text = format!("<= 2 spans, <= 3 local spans, nesting <= 3, <= {} operations", g.max_len);
+            assumptions.push("the clock itself is not enumerated (it never influences control flow); durations are compared with harness-side monotonic brackets (tolerance 30us + 0.2%), begin times with wall-clock brackets +-10ms".into());
         }
         _ => return None,
     }
